@@ -31,6 +31,8 @@ def _profiles(rng, tier):
         for p in itertools.product(range(4), repeat=L):
             if L <= 5 or rng.random() < (0.35 if tier == "quick" else 0.6):
                 yield list(p)
+    for _ in range(2500 if tier == "quick" else 30000):      # nested humps over a small alphabet: where the options compete
+        yield [rng.randint(0, 7) for _ in range(rng.randint(5, 12))]
     for _ in range(300 if tier == "quick" else 4000):
         L = rng.randint(2, 30)
         style = rng.random()
